@@ -122,6 +122,7 @@ class Impl:
         self.preface_seen = False
         self.cleared = False
         self.sent_preface = False
+        self.chunker = None                        # C21: bytes -> list of chunks fed to receive_data one by one
         orig_clear = self.conn.clear_outbound_data_buffer
 
         def clear():
@@ -471,7 +472,12 @@ class Impl:
                     annotated.append((entry[0], blen) + tuple(entry[2:]))
                     data += w
                 op = ('Receive', annotated)
-                evs = c.receive_data(data)
+                if self.chunker is None:
+                    evs = c.receive_data(data)
+                else:
+                    evs = []
+                    for ch in self.chunker(data):
+                        evs += c.receive_data(ch)
                 ans = [self._tevent(e, evs, i) for i, e in enumerate(evs)]
             else:
                 raise ValueError('unknown op ' + k)
